@@ -45,6 +45,11 @@ pub fn render(s: &Styled<RoundedRectangle, PrimitiveStyle<Gray8>>, bb: Rectangle
 
 pub fn run(suite: &str, a: &[&str]) -> Option<String> {
     Some(match suite {
+        // the class predicate of the known finding, model (K06_rrect_fill_outside_stroke in Model/Rrect.v) vs implementation
+        "rr_k06" => {
+            let s = rr(a).into_styled(style(&a[12..16]));
+            sb(in_class_fill_outside_stroke(&s)).to_string()
+        }
         "rr_styled" => {
             let r = rr(a);
             let st = style(&a[12..16]);
@@ -115,6 +120,12 @@ fn expected_map2(s: &Styled<RoundedRectangle, PrimitiveStyle<Gray8>>, margin: i3
     m
 }
 
+/// K06_rrect_fill_outside_stroke (known_findings.txt): exists p with fill_area().contains(p) && !stroke_area().contains(p)
+fn in_class_fill_outside_stroke(s: &Styled<RoundedRectangle, PrimitiveStyle<Gray8>>) -> bool {
+    let (fa, sa) = (s.fill_area(), s.stroke_area());
+    fa.rectangle.points().any(|p| fa.contains(p) && !sa.contains(p))
+}
+
 pub fn search(suite: &str, a: &[&str]) -> Option<String> {
     Some(match suite {
         // C06: draw() (both targets) and pixels() paint fill colour exactly on fill_area(), stroke colour exactly on
@@ -127,7 +138,8 @@ pub fn search(suite: &str, a: &[&str]) -> Option<String> {
             let x = render(&s, big());
             if x.iter_map != want || x.native_map != want || x.pixels_map != want {
                 let clip = expected_map2(&s, 3, true);
-                if [&x.iter_map, &x.native_map, &x.pixels_map].iter().all(|m| **m == want || **m == clip) {
+                // class membership is decided from the INPUT: some point of fill_area() lies outside stroke_area()
+                if in_class_fill_outside_stroke(&s) && [&x.iter_map, &x.native_map, &x.pixels_map].iter().all(|m| **m == want || **m == clip) {
                     let bad = [&x.iter_map, &x.native_map, &x.pixels_map].iter().find(|m| ***m != want).map(|m| first_diff(&want, m)).unwrap();
                     return Some(format!("FAIL class=K06_rrect_fill_outside_stroke fill_area() point outside stroke_area() not painted: {}", bad));
                 }
@@ -187,7 +199,7 @@ pub fn search(suite: &str, a: &[&str]) -> Option<String> {
             if x.iter_map != x.native_map {
                 return Some(format!("FAIL draw() on draw_iter-only vs native target: {}", first_diff(&x.iter_map, &x.native_map)));
             }
-            if x.pixels_map != x.iter_map && st.fill_color.is_some() && !(st.stroke_color.is_some() && st.stroke_width > 0)
+            if x.pixels_map != x.iter_map && in_class_fill_outside_stroke(&s) && st.fill_color.is_some() && !(st.stroke_color.is_some() && st.stroke_width > 0)
                 && x.iter_map == expected_map(&s, 3).into_iter().filter(|((y, x_), _)| bb.contains(Point::new(*x_, *y))).collect::<Map>()
                 && x.pixels_map == expected_map2(&s, 3, true).into_iter().filter(|((y, x_), _)| bb.contains(Point::new(*x_, *y))).collect::<Map>() {
                 return Some(format!("FAIL class=K01_rrect_fill_outside_stroke fill only: pixels() omits fill_area() points outside stroke_area(): {}", first_diff(&x.iter_map, &x.pixels_map)));
